@@ -495,8 +495,26 @@ func classify(res any) string {
 	return "invalid"
 }
 
+// guardT runs f with panic recovery AND a watchdog: a panic inside Apply can leave the FSM mutex held,
+// after which every later call on that FSM blocks forever. Result "panic:…" or "hang:…" means the FSM
+// must not be touched again (see broken()).
+func guardT(f func() string) string {
+	ch := make(chan string, 1)
+	go func() { ch <- vh.Guard(f) }()
+	select {
+	case r := <-ch:
+		return r
+	case <-time.After(5 * time.Second):
+		return "hang:no answer within 5s (FSM lock held?)"
+	}
+}
+
+func broken(res string) bool {
+	return strings.HasPrefix(res, "panic:") || strings.HasPrefix(res, "hang:")
+}
+
 func applyOp(f *craft.ClusterFSM, idx uint64, o op) string {
-	return vh.Guard(func() string {
+	return guardT(func() string {
 		return classify(f.Apply(&hraft.Log{Index: idx, Term: 1, Type: hraft.LogCommand, Data: o.data(idx)}))
 	})
 }
@@ -509,7 +527,7 @@ func (m *memSink) Close() error  { return nil }
 
 // snapRestore runs the real Snapshot → Persist → Restore into a fresh FSM.
 func snapRestore(f *craft.ClusterFSM) (g *craft.ClusterFSM, errText string) {
-	errText = vh.Guard(func() string {
+	errText = guardT(func() string {
 		snap, err := f.Snapshot()
 		if err != nil {
 			return "snapshot:" + err.Error()
@@ -640,7 +658,10 @@ func (g *gen) next(idx uint64) op {
 	}
 	g.pending = nil
 	o := g.build(idx)
-	if applyOp(g.scratch, idx, o) == "ok" && g.pending != nil {
+	r := applyOp(g.scratch, idx, o)
+	if broken(r) {
+		g.scratch = newFSM() // poisoned (lock may be held): start over, known ids become stale
+	} else if r == "ok" && g.pending != nil {
 		*g.pending = append(*g.pending, int64(idx))
 	}
 	return o
@@ -1175,10 +1196,17 @@ func runCase(c *vh.Ctx, ops []op, cfg runCfg) {
 		idxs[i] = idx
 		before := st
 		res := applyOp(main, idx, o)
-		st = main.VerifState()
 		line := fmt.Sprintf("%d %s", idx, o.text)
 		fmt.Fprintf(&replay, "; ap %s", line)
 		fmt.Fprintf(&canon, "%s;", line)
+		if broken(res) {
+			// the FSM may hold its lock now: record and abandon the case, never touch it again
+			c.Op("aq "+line, res)
+			c.Fail("apply-panic:"+o.kind, res, replay.String())
+			c.Case(canon.String(), true)
+			return
+		}
+		st = main.VerifState()
 		if cfg.quiet {
 			c.Op("aq "+line, res)
 		} else {
@@ -1194,6 +1222,11 @@ func runCase(c *vh.Ctx, ops []op, cfg runCfg) {
 		if cfg.c22 {
 			// determinism: a second node applying the same log ends in the same state
 			resP := applyOp(peer, idx, o)
+			if broken(resP) {
+				c.Fail("apply-panic:"+o.kind, resP, replay.String())
+				c.Case(canon.String(), true)
+				return
+			}
 			if resP != res || dumpState(peer.VerifState()) != dumpState(st) {
 				c.Fail("determinism:peer-differs:"+o.kind, "two FSMs applying the same committed log disagree", replay.String())
 			}
@@ -1205,13 +1238,23 @@ func runCase(c *vh.Ctx, ops []op, cfg runCfg) {
 					}
 				} else {
 					for _, e := range o.expand {
-						if r := applyOp(twin, idx, e); r != "ok" {
+						r := applyOp(twin, idx, e)
+						if broken(r) {
+							c.Fail("apply-panic:"+e.kind, r, replay.String())
+							c.Case(canon.String(), true)
+							return
+						}
+						if r != "ok" {
 							c.Fail("batch:not-sequential", "batch succeeded but its op "+e.text+" applied alone returns "+r, replay.String())
 						}
 					}
 				}
 			} else {
-				applyOp(twin, idx, o)
+				if r := applyOp(twin, idx, o); broken(r) {
+					c.Fail("apply-panic:"+o.kind, r, replay.String())
+					c.Case(canon.String(), true)
+					return
+				}
 			}
 			if dumpState(twin.VerifState()) != dumpState(st) {
 				c.Fail("batch:not-sequential", "state after batches differs from applying their ops one by one", replay.String())
@@ -1299,10 +1342,19 @@ func runCase(c *vh.Ctx, ops []op, cfg runCfg) {
 		rp.WriteString("new")
 		c.Op("new", "ok")
 		f := newFSM()
+		dead := false
 		for i := 0; i < k; i++ {
 			r := applyOp(f, idxs[i], ops[i])
 			c.Op(fmt.Sprintf("aq %d %s", idxs[i], ops[i].text), r)
 			fmt.Fprintf(&rp, "; ap %d %s", idxs[i], ops[i].text)
+			if broken(r) {
+				c.Fail("apply-panic:"+ops[i].kind, r, rp.String())
+				dead = true
+				break
+			}
+		}
+		if dead {
+			continue
 		}
 		liveK := f.VerifState()
 		g, e := snapRestore(f)
@@ -1318,6 +1370,21 @@ func runCase(c *vh.Ctx, ops []op, cfg runCfg) {
 			r := applyOp(g, idxs[i], ops[i])
 			c.Op(fmt.Sprintf("aq %d %s", idxs[i], ops[i].text), r)
 			fmt.Fprintf(&rp, "; ap %d %s", idxs[i], ops[i].text)
+			if broken(r) {
+				// the replica that restored the snapshot cannot apply a command the never-restored
+				// replica applied: divergence (and the FSM may hold its lock — abandon it)
+				key := "restored-replica-diverges:apply-panics-after-restore"
+				if em := emptyComponents(liveK); len(em) > 0 {
+					key += "-of-empty-component"
+					r += " [empty at snapshot time: " + strings.Join(em, ",") + "]"
+				}
+				c.Fail(key, fmt.Sprintf("after restoring a snapshot taken after %d commands, applying %q: %s", k, ops[i].text, r), rp.String())
+				dead = true
+				break
+			}
+		}
+		if dead {
+			continue
 		}
 		fd := dumpState(g.VerifState())
 		c.Op("dump", fd)
@@ -1463,4 +1530,60 @@ func limitDirected() [][]op {
 			opAddNode(craft.NodeInfo{ID: "nœud", Name: "Nœ", Role: "writer", State: "healthy"}), opPromote("nœud", "")})
 	}
 	return out
+}
+
+// emptyComponents names the map-typed primary fields that are empty in a state.
+func emptyComponents(s craft.VerifState) []string {
+	var out []string
+	add := func(n string, l int) {
+		if l == 0 {
+			out = append(out, n)
+		}
+	}
+	add("nodes", len(s.Nodes))
+	add("files", len(s.Files))
+	add("tokens", len(s.Tokens))
+	add("organizations", len(s.Orgs))
+	add("teams", len(s.Teams))
+	add("roles", len(s.Roles))
+	add("measurementPermissions", len(s.MPerms))
+	add("tokenMemberships", len(s.Members))
+	return out
+}
+
+type replayCase struct {
+	ops []op
+	at  []int // prefixes at which a replica restores a snapshot and continues
+}
+
+// emptyComponentDirected: snapshots taken while a map-typed component is empty (empty prefix, or
+// add-then-remove-all), restored, and then further commands that touch that component; the restored
+// replica must behave like the never-restored one.
+func emptyComponentDirected() []replayCase {
+	n1 := craft.NodeInfo{ID: "n1", Name: "N1", Role: "writer", State: "healthy"}
+	n2 := craft.NodeInfo{ID: "n2", Name: "N2", Role: "writer", State: "healthy"}
+	fa := fileSpec{path: "db1/m/fa.parquet", sha: "s", size: 1, db: "db1", meas: "m", pt: 1700000000, origin: "n1", tier: "hot", ct: 1700000100}
+	fb := fileSpec{path: "db2/m/fb.parquet", sha: "s", size: 1, db: "", meas: "m", pt: 1700000000, origin: "n1", tier: "hot", ct: 1700000100}
+	every := []op{opAddNode(n1), opUpdNode(n2), opPromote("n1", ""), opNodeState("n2", "unhealthy"), opCompactor("n1", ""),
+		opRegFile(fa), opUpdFile(fb), opBatch([]batchItem{{k: 'r', f: fa}, {k: 'd', path: fb.path}}),
+		mTok("tA", "p1"), mOrg("acme"), mTeam(10, "core"), mRole(11), opMkMPerm(craft.MeasurementPermissionEntry{RoleID: 12, MeasurementPattern: "cpu", Permissions: "read", CreatedAtUnixNano: 5}), mMem(9, 11)}
+	cases := []replayCase{
+		// the empty prefix: every component empty, then every component touched
+		{ops: every, at: []int{0}},
+		// nodes: add, remove all, snapshot, add/update/promote again
+		{ops: []op{opAddNode(n1), opAddNode(n2), opRmNode("n1"), opRmNode("n2"), opAddNode(n1), opUpdNode(n2), opPromote("n1", ""), opDemote("n1"), opNodeState("n2", "dead")}, at: []int{4}},
+		{ops: []op{opRegFile(fa), opCompactor("n9", ""), opUpdNode(n1), opPromote("n1", "")}, at: []int{1, 2}},
+		// files
+		{ops: []op{opRegFile(fa), opUpdFile(fb), opDelFile(fa.path, "x"), opDelFile(fb.path, "x"), opUpdFile(fa), opRegFile(fb), opBatch([]batchItem{{k: 'd', path: fa.path}, {k: 'r', f: fa}})}, at: []int{4}},
+		// tokens
+		{ops: []op{mTok("tA", "p1"), mTok("tB", "p1"), opDelToken(1), opDelToken(2), mTok("tA", "p1"), opRotate(5, "h2", "p2"), opUpdToken(5, "tC", "", "", 0, []string{"name"}), opRevoke(5)}, at: []int{4}},
+		// the whole RBAC hierarchy emptied by one cascade (and the token deleted), then rebuilt
+		{ops: []op{mOrg("acme"), mTeam(1, "core"), mRole(2), opMkMPerm(craft.MeasurementPermissionEntry{RoleID: 3, MeasurementPattern: "cpu", Permissions: "read", CreatedAtUnixNano: 5}),
+			mTok("tA", "p1"), mMem(5, 2), opDelOrg(1), opDelToken(5),
+			mOrg("acme"), mTeam(9, "core"), mRole(10), opMkMPerm(craft.MeasurementPermissionEntry{RoleID: 11, MeasurementPattern: "cpu", Permissions: "read", CreatedAtUnixNano: 5}),
+			mTok("tA", "p1"), mMem(13, 10), opUpdOrg(9, "globex", "", true, 0, []string{"name"}), opUpdTeam(10, "ops", "", true, 0, []string{"name"}), opDelTeam(10)}, at: []int{7, 8, 9}},
+		// partially empty: teams gone but org stays; memberships gone but token stays
+		{ops: []op{mOrg("acme"), mTeam(1, "core"), mTok("tA", "p1"), mMem(3, 2), opRmMem(3, 2), opDelTeam(2), mTeam(1, "core"), mMem(3, 7), mRole(7)}, at: []int{5, 6}},
+	}
+	return cases
 }
